@@ -340,6 +340,7 @@ def run(prog, rep):
               "the dispatch table `self` is no longer the module's __dict__", dmod.path)
 
     ret1_rule(prog, rep)
+    regex2_rule(prog, rep, vt)
 
     # ------------------------------------------------------------------ ATOM
     rep.rule("ATOM", "ATOM analysis (see C06) of the value editing methods of BaseProperty; a finding counts for C05 when the write "
@@ -408,3 +409,81 @@ def _conversion_of(v, f, me, prog=None):
         if defs and all(not isinstance(d, ast.AugAssign) and (is_get(x.expand(d)) or (isinstance(x.expand(d), ast.ListComp) and is_get(x.expand(d).elt))) for d in defs):
             return True, defs[0]
     return False, None
+
+
+_RE_METHODS = ("match", "fullmatch", "search", "findall", "finditer")
+
+
+def _anchors(pattern):
+    """(anchored at the start, anchored at the end) for the whole pattern: every top level alternative starts with ^ / \\A and ends with $ / \\Z"""
+    try:
+        import re._parser as sp          # python >= 3.11
+    except ImportError:                  # pragma: no cover
+        import sre_parse as sp
+    try:
+        tree = list(sp.parse(pattern))
+    except Exception:
+        return None
+
+    def alts(seq):
+        seq = list(seq)
+        if len(seq) == 1 and str(seq[0][0]) == "BRANCH":
+            return [list(a) for a in seq[0][1][1]]
+        if len(seq) == 1 and str(seq[0][0]) == "SUBPATTERN":
+            return alts(seq[0][1][3])
+        return [seq]
+
+    def at(it, names):
+        return str(it[0]) == "AT" and str(it[1]) in names
+    al = alts(tree)
+    start = all(a and at(a[0], ("AT_BEGINNING", "AT_BEGINNING_STRING")) for a in al)
+    end = all(a and at(a[-1], ("AT_END", "AT_END_STRING")) for a in al)
+    return start, end
+
+
+def regex2_rule(prog, rep, vt, rule="REGEX-2"):
+    """valid_type accepts a dtype by regular expression only when the expression spans the whole name"""
+    from ..dataflow import private_closure
+    rep.rule(rule, "every regular expression that dtypes.valid_type (and its private helpers) applies to the dtype name is applied to the whole name: "
+                   "fullmatch, or match with a pattern that ends in $ / \\Z, or search / findall with a pattern anchored at both ends. "
+                   "Otherwise a name that merely starts with (contains) a valid type is accepted and stored as dtype")
+    dmod = prog.module_of("dtypes")
+    fd = Folder(prog)
+    n = 0
+    for f in private_closure(vt):
+        for c in ast.walk(f.node):
+            if not (isinstance(c, ast.Call) and isinstance(c.func, ast.Attribute) and c.func.attr in _RE_METHODS):
+                continue
+            recv = c.func.value
+            pat = None
+            if canonical_name(prog, f, recv) == "re" and c.args:
+                pat = c.args[0]
+            else:
+                comp = recv
+                if isinstance(comp, ast.Name):
+                    defs = [st.value for st in ast.walk(f.node) if isinstance(st, ast.Assign) and len(st.targets) == 1
+                            and isinstance(st.targets[0], ast.Name) and st.targets[0].id == comp.id]
+                    if not defs:
+                        defs = list(f.module.assigns.get(comp.id, []))
+                    comp = defs[0] if len(defs) == 1 else None
+                if isinstance(comp, ast.Call) and canonical_name(prog, f, comp.func) == "re.compile" and comp.args:
+                    pat = comp.args[0]
+            if pat is None:
+                continue
+            n += 1
+            try:
+                text = fd.try_fold(pat, f.module, default=None)
+            except Exception:
+                text = None
+            if not isinstance(text, str):
+                rep.fail(rule, "%s|computed-pattern" % f.short, "the pattern %s is not a constant: whether it spans the whole name is not readable"
+                         % unparse(pat)[:60], where(f, c))
+                continue
+            anc = _anchors(text)
+            m = c.func.attr
+            good = anc is not None and (m == "fullmatch" or (m == "match" and anc[1]) or (anc[0] and anc[1]))
+            rep.check(good, rule, "%s: %s of %r" % (f.short, m, text), "spans the whole dtype name",
+                      "%s applies %r with %s(): the expression is not tied to %s of the name, so a name with extra text passes as a valid dtype"
+                      % (f.short, text, m, "the end" if anc and (anc[0] or m == "match") else "both ends"), where(f, c),
+                      witness="Property(dtype='2-tuple-of-something') is accepted; its values are then converted as 2-tuples")
+    rep.note("%s: %d regular expression uses in valid_type" % (rule, n))
